@@ -1369,6 +1369,15 @@ func (e *Env) evalCall(n *ECall) SVal {
 			}
 		}
 		return mathBool(fmt.Sprintf("(< (base %s) %s)", t, e.cur.alloc))
+	case "rowof":
+		// rowof(s): the whole storage row (SMT array) that holds the elements of slice s in the current state; two
+		// states agree on every element of s (and of every slice sharing its array) iff their rows are equal
+		v := e.eval(n.Args[0])
+		sl, ok := v.typ.Underlying().(*types.Slice)
+		if !ok {
+			e.fail("rowof: slice expected")
+		}
+		return SVal{t: e.contents(v), typ: types.NewArray(sl.Elem(), 1), sort: "(Array Int " + vc.d.sortOf(sl.Elem()) + ")", st: v.st}
 	case "strof":
 		// strof(b): the Go conversion string(b) of a byte slice (the symbol the executor uses for it)
 		b := e.eval(n.Args[0])
